@@ -99,6 +99,32 @@ def run_case(sname, delay, bad_idx, pos, filler):
             due = [i for i, (kind, _) in enumerate(submitted) if kind == "bad"]
             if not due:
                 msgs.append("step %d raised %r although every submitted action is in the space" % (k, ex))
+                break
+            # the caller catches the error and keeps stepping with in-space actions: the rejected action
+            # must never be executed later either
+            allowed = [denote(a) for kind, a in submitted if kind == "good"]
+            allowed.append(denote(0) if sname.startswith("disc") else {})
+            allowed.append({})
+            for k2 in range(k + 1, steps):
+                if env._done:
+                    break
+                action2 = good[(filler + k2) % len(good)]
+                allowed.append(denote(action2))
+                before2 = snapshot(env)
+                n2 = len(env.broker.track_record)
+                try:
+                    o, r, d, info = env.step(action2)
+                except Exception as ex2:
+                    if snapshot(env) != before2:
+                        msgs.append("step %d (after the rejection) raised %r and changed the account" % (k2, ex2))
+                    continue
+                tr2 = env.broker.track_record
+                if len(tr2) > n2:
+                    got2 = {getattr(c, "symbol", str(c)): float(v) for c, v in tr2[-1].allocation.items()}
+                    if got2 not in allowed:
+                        msgs.append("after the malformed action %r was rejected at step %d, step %d executed allocation %r, which no "
+                                    "in-space submitted action denotes (submitted: %r)" % (submitted[due[0]][1], k, k2, got2, allowed))
+                        break
             break
         # the call succeeded: what was executed must be the decision submitted `delay` steps earlier
         j = k - delay
